@@ -141,6 +141,12 @@ def gen_meaning(rng, dg, depth, allow_opt=True):
             x = {"m": "scalar", "k": "float"} if top_tag(y) != "scalar:float" else {"m": "scalar", "k": "bool"}
         if y["m"] in ("opt", "alt"):
             y = {"m": "scalar", "k": "str"} if top_tag(x) != "scalar:str" else {"m": "scalar", "k": "int"}
+    if allow_opt:    # a None alternative that is not the last one / nested: Union[A, None, B], A | None | B
+        r2 = rng.random()
+        if r2 < 0.12 and x["m"] not in ("opt", "alt"):
+            x = {"m": "opt", "x": x}
+        elif r2 < 0.2 and y["m"] not in ("opt", "alt"):
+            y = {"m": "opt", "x": y}
     return {"m": "alt", "x": x, "y": y}
 
 
@@ -158,21 +164,73 @@ def is_field_expr(sp):
 
 def is_plain(sp):
     """evaluates to a builtin class / PEP-585 alias / PEP-604 union of such (supports type.__or__)"""
+    return ev_kind(sp) == "plain"
+
+
+def ev_kind(sp):
+    """what kind of Python object the expression evaluates to, as far as the `|` operator cares:
+    'none', 'field_cls', 'field_inst', 'plain' (builtin class, typing.Any, PEP-585 alias, types.UnionType),
+    'typing' (typing alias / typing.Union)"""
     s = sp["s"]
-    if s == "builtin":
-        return sp["k"] != "any"
-    if s in ("bareBuiltin", "dictBare", "pep585", "dict585"):
-        return True
+    if s == "none":
+        return "none"
+    if s in ("fcls", "bareCls", "mapBare"):
+        return "field_cls"
+    if is_field_expr(sp):
+        return "field_inst"
+    if s in ("builtin", "bareBuiltin", "dictBare", "pep585", "dict585"):
+        return "plain"
     if s == "pipe":
-        return is_plain(sp["x"]) and (is_plain(sp["y"]) or sp["y"]["s"] in ("none", "fcls", "bareCls", "mapBare"))
-    return False
+        kx, ky = ev_kind(sp["x"]), ev_kind(sp["y"])
+        return "typing" if "typing" in (kx, ky) else "plain"
+    return "typing"
 
 
 def pipe_ok(x, y):
-    """the model covers this `x | y`"""
-    if is_field_expr(x):
+    """Python and typedpy accept `x | y` (no TypeError from the operator itself)"""
+    kx, ky = ev_kind(x), ev_kind(y)
+    if kx in ("field_cls", "field_inst") or kx == "typing":
         return True
-    return is_plain(x) and (is_plain(y) or y["s"] in ("none", "fcls", "bareCls", "mapBare"))
+    if kx == "plain":
+        return ky != "field_inst"
+    if kx == "none":
+        return ky in ("plain", "typing", "field_cls")
+    return False
+
+
+def typing_members(sp):
+    """flattened members of the typing-level union the expression evaluates to (None: not such a union)"""
+    s = sp["s"]
+    if s == "optional":
+        return _flat(sp["x"]) + ["none"]
+    if s == "union" or (s == "pipe" and not is_field_expr(sp["x"])):
+        return _flat(sp["x"]) + _flat(sp["y"])
+    return None
+
+
+def _flat(sp):
+    if sp["s"] == "none":
+        return ["none"]
+    ms = typing_members(sp)
+    return ms if ms is not None else [sp]
+
+
+def auto_optional(mode, ty):
+    """typedpy is documented to make the field optional by itself: an annotation that is a typing / PEP-604 union
+    with a None member (in any position)"""
+    if mode != "ann" or is_field_expr(ty):
+        return False
+    ms = typing_members(ty)
+    return ms is not None and "none" in ms
+
+
+def meaning_has_top_none(m):
+    """None is one of the top-level alternatives of the meaning (possibly through nested alternatives)"""
+    if m["m"] == "opt":
+        return True
+    if m["m"] == "alt":
+        return meaning_has_top_none(m["x"]) or meaning_has_top_none(m["y"])
+    return False
 
 
 STYLES = ["native", "builtin", "typing", "call", "inst", "pep604"]
@@ -221,8 +279,15 @@ def spell(m, rng, style):
                 "pep604": "pipe"}[st]
         if style == "typing" and rng.random() < 0.3:
             form = "union"
+        none_first = st != "native" and rng.random() < 0.4     # Union[None, X] / None | X / AnyOf[None, X]
         if form == "optional":
-            return {"s": "optional", "x": x}
+            if not none_first:
+                return {"s": "optional", "x": x}
+            form = "union"
+        if none_first:
+            if form == "pipe" and not pipe_ok({"s": "none"}, x):
+                form = "union"
+            return {"s": form, "x": {"s": "none"}, "y": x}
         if form == "pipe" and not pipe_ok(x, {"s": "none"}):
             form = "union"
         return {"s": form, "x": x, "y": {"s": "none"}}
@@ -461,14 +526,16 @@ def default_capable(m):
         or (m["m"] == "alt" and m["x"]["m"] in ("scalar", "lit"))
 
 
-def field_variants(rng, vg, name, m, n_random):
-    """spellings of one field: a list of FieldSp wire objects; [0] is the typedpy-native reference"""
+def field_variants(rng, vg, name, m, n_random, extra_tys=()):
+    """spellings of one field: a list of FieldSp wire objects; [0] is the typedpy-native reference;
+    `extra_tys` = directed type spellings to include as annotations"""
     decl = meaning_decl(m)
     default = None
     if default_capable(m) and rng.random() < 0.45:
         base = decl["fields"][0] if decl["k"] == "anyOf" else decl
         default = scalar_default(rng, vg, base)
-    force_optional = m["m"] != "opt" and default is None and rng.random() < 0.15
+    has_none = meaning_has_top_none(m)
+    force_optional = not has_none and default is None and rng.random() < 0.15
     out, seen = [], set()
 
     def add(ty, mode, how):
@@ -479,10 +546,11 @@ def field_variants(rng, vg, name, m, n_random):
             f["dflt"] = {"how": how, "v": default, "len": len(py_literal(default))}
         kwtext = py_literal(default) if default is not None and how == "kw" else None
         fill_lens(f["ty"], kwtext)
-        typing_optional = mode == "ann" and not is_field_expr(ty) and m["m"] == "opt"
-        if (m["m"] == "opt" and not typing_optional) or force_optional:
+        # a meaning with a None alternative is an optional field in every spelling: by itself where typedpy
+        # documents that (typing / PEP-604 union with a None member), through `_optional` otherwise
+        if (has_none and not auto_optional(mode, ty)) or force_optional:
             f["inOptional"] = True
-        elif m["m"] == "opt" and rng.random() < 0.2:
+        elif has_none and rng.random() < 0.15:
             f["inOptional"] = True
         key = json.dumps(f, sort_keys=True)
         if key not in seen:
@@ -507,17 +575,26 @@ def field_variants(rng, vg, name, m, n_random):
                     hows.append("kw")
             for how in hows:
                 add(json.loads(json.dumps(ty)), mode, how)
+    for ty in extra_tys:
+        hows = [None] if default is None else ["eq"]
+        for how in hows:
+            add(json.loads(json.dumps(ty)), "ann", how)
     return out
 
 
-def gen_case(rng, tier, ci):
+def gen_case(rng, tier, ci, meanings=None, extra_tys=None, cap=None):
+    """`meanings` / `extra_tys` (per field) fix the class for the directed stream; default: random"""
     dg = gen.DeclGen(rng, max_depth=1)
     vg = gen.ValGen(rng)
     depth = rng.choice([0, 1, 1, 2, 2, 3] if tier == "quick" else [0, 1, 2, 2, 3, 3, 4])
-    n_fields = rng.choice([1, 1, 1, 2, 2, 3])
+    if meanings is None:
+        n_fields = rng.choice([1, 1, 1, 2, 2, 3])
+        meanings = [gen_meaning(rng, dg, depth if i == 0 else min(depth, 1)) for i in range(n_fields)]
+    n_fields = len(meanings)
     names = rng.sample(["a", "b", "c", "d", "e1", "f_2"], n_fields)
-    meanings = [gen_meaning(rng, dg, depth if i == 0 else min(depth, 1)) for i in range(n_fields)]
-    per_field = [field_variants(rng, vg, nm, m, 3 if tier == "quick" else 5) for nm, m in zip(names, meanings)]
+    extra_tys = extra_tys or [()] * n_fields
+    per_field = [field_variants(rng, vg, nm, m, 3 if tier == "quick" else 5, ex)
+                 for nm, m, ex in zip(names, meanings, extra_tys)]
     # class variants: reference first, then every field variant at least once, then random combinations
     combos = [tuple(0 for _ in names)]
     longest = max(len(p) for p in per_field)
@@ -537,7 +614,7 @@ def gen_case(rng, tier, ci):
                 continue
             seen.add(key)
             variants.append({"future": future, "fields": [per_field[i][j] for i, j in enumerate(combo)]})
-    variants = variants[: (16 if tier == "quick" else 40)]
+    variants = variants[: (cap or (16 if tier == "quick" else 40))]
     # shared value stream, from the documented meaning
     decls = [meaning_decl(m) for m in meanings]
     ref = variants[0]["fields"]
@@ -579,8 +656,57 @@ def _loadable(kw):
     return '"o"' not in s and '"e"' not in s
 
 
+def union_spellings(xs, ys):
+    """every way of writing the two-way alternative x / y (operands already spelled; 'none' allowed on one side)"""
+    out = []
+    for x in xs:
+        for y in ys:
+            for form in ("union", "anyOf", "pipe"):
+                if form == "pipe" and not pipe_ok(x, y):
+                    continue
+                out.append({"s": form, "x": x, "y": y})
+            if y["s"] == "none":
+                out.append({"s": "optional", "x": x})
+    return out
+
+
+def directed_cases(rng, tier):
+    """Directed stream: alternatives with a None member in EVERY position and bracketing - `Optional[T]`,
+    `Union[T, None]`, `Union[None, T]`, `T | None`, `None | T`, `AnyOf[None, T]`, `Union[A, None, B]`,
+    `A | None | B`, `Union[A, Optional[B]]`, `Optional[A] | B` ... - for a few operand types, each next to a plain
+    second field.  The enumeration is exhaustive over forms x positions; only the operand types are sampled."""
+    dg = gen.DeclGen(rng, max_depth=1)
+    none = {"s": "none"}
+    pool = [{"m": "scalar", "k": "int"}, {"m": "scalar", "k": "str"}, {"m": "scalar", "k": "float"},
+            {"m": "lit", "d": gen_lit(rng, dg)}, {"m": "coll", "c": "list", "x": {"m": "scalar", "k": "int"}},
+            {"m": "dict", "x": {"m": "scalar", "k": "str"}, "y": {"m": "scalar", "k": "bool"}}]
+    other = {"m": "scalar", "k": rng.choice(["str", "int"])}
+    cases = []
+    picks = rng.sample(pool, 3 if tier == "quick" else len(pool))
+    for t in picks:
+        ts = [spell(t, rng, st) for st in ("builtin", "native", "typing")]
+        ts = [x for i, x in enumerate(ts) if x not in ts[:i]]
+        two = union_spellings(ts, [none]) + union_spellings([none], ts)
+        cases.append(gen_case(rng, tier, len(cases), meanings=[{"m": "opt", "x": t}, other],
+                              extra_tys=[two, ()], cap=60))
+    for t in picks[: (2 if tier == "quick" else len(picks))]:
+        u = rng.choice([p for p in pool if top_tag(p) != top_tag(t)])
+        ts, us = [spell(t, rng, st) for st in ("builtin", "native")], [spell(u, rng, st) for st in ("builtin", "native")]
+        t_opt = union_spellings(ts, [none]) + union_spellings([none], ts)      # T-or-None in every spelling
+        u_opt = union_spellings(us, [none]) + union_spellings([none], us)
+        inner = union_spellings(t_opt, us)           # None inside / first:  Union[Optional[T], U], T | None | U, ...
+        last = union_spellings(ts, u_opt)            # None last / inside:   Union[T, Optional[U]], T | (None | U), ...
+        rng.shuffle(inner)
+        rng.shuffle(last)
+        cases.append(gen_case(rng, tier, len(cases), meanings=[{"m": "alt", "x": {"m": "opt", "x": t}, "y": u}, other],
+                              extra_tys=[inner[:40], ()], cap=60))
+        cases.append(gen_case(rng, tier, len(cases), meanings=[{"m": "alt", "x": t, "y": {"m": "opt", "x": u}}, other],
+                              extra_tys=[last[:40], ()], cap=60))
+    return cases
+
+
 def gen_cases(rng, tier, n):
-    return [gen_case(rng, tier, i) for i in range(n)]
+    return directed_cases(rng, tier) + [gen_case(rng, tier, i) for i in range(n)]
 
 
 # ------------------------------------------------------------------ real code
